@@ -565,6 +565,14 @@ impl RingBuffer {
     }
 }
 
+#[cfg(zstd_rs_verif)]
+impl RingBuffer {
+    /// Verification hook: (cap, head, tail), read-only.
+    pub fn verif_state(&self) -> (usize, usize, usize) {
+        (self.cap, self.head, self.tail)
+    }
+}
+
 impl Drop for RingBuffer {
     fn drop(&mut self) {
         if self.cap == 0 {
